@@ -15,6 +15,7 @@ import random
 import re
 import resource
 import shutil
+import time
 
 from . import common
 from .common import HarnessError
@@ -186,10 +187,10 @@ def account(chk, cases, results):
             chk.mismatch(cls, "\n".join(texts[:8]), {"case": c, "class": cls, "result": {k: v for k, v in r.items() if k != "obs"}})
 
 
-def tlc(chk, tier, maxlen, *, simulate=None, label=None):
+def tlc(chk, tier, maxlen, *, simulate=None, label=None, workers=None):
     cfg = "FamSvgSim.cfg" if simulate else "FamSvg.cfg"
     res = common.run_tlc("FamSvg", cfg, defines={"TIER": tier, "MAXLEN": maxlen}, simulate=simulate,
-                         depth=maxlen + 1 if simulate else None, timeout=900, java_opts=["-Xss16m"],
+                         depth=maxlen + 1 if simulate else None, timeout=900, java_opts=["-Xss16m"], workers=workers,
                          name=(label or "FamSvg").replace("/", "_"))
     chk.add_tlc(res, label or ("FamSvg/" + tier))
     if not res.cases:
@@ -197,7 +198,39 @@ def tlc(chk, tier, maxlen, *, simulate=None, label=None):
     return res
 
 
-def replay(cases, *, deadline, workers=None, name="c19"):
+def replay(cases, *, deadline, workers=None, name="c19", batch=40):
+    """Replay "svg" cases in batches (one round trip to a worker per batch); a batch without per-case results
+    (hang, crash) is run again case by case so that the verdict is attributed to the right case."""
+    svg = [c for c in cases if c.get("stage") == "svg" and batch > 1]
+    rest = [c for c in cases if not (c.get("stage") == "svg" and batch > 1)]
+    groups = {}
+    for c in svg:
+        groups.setdefault(c.get("mode"), []).append(c)
+    batches = []
+    for mode, lst in groups.items():
+        n = batch if mode != "bin" else 8
+        for i in range(0, len(lst), n):
+            batches.append({"id": "batch-%s-%d" % (mode, i), "stage": "svgbatch", "cases": lst[i:i + n]})
+    raw = replay_raw(rest + batches, deadline=deadline, workers=workers, name=name)
+    results = {c["id"]: raw[c["id"]] for c in rest}
+    redo = []
+    for b in batches:
+        sub = (raw[b["id"]].get("obs") or {}).get("results")
+        if sub is None or len(sub) != len(b["cases"]):
+            redo += b["cases"]
+            continue
+        for r in sub:
+            results[r["id"]] = r
+    if redo:
+        results.update(replay_raw(redo, deadline=deadline, workers=workers, name=name + "single"))
+    for c in cases:
+        r = results[c["id"]]
+        if (not r["ok"]) and (r.get("diff") or "").startswith("harness:"):
+            raise HarnessError("case %s: %s" % (c["id"], r["diff"]))
+    return results
+
+
+def replay_raw(cases, *, deadline, workers=None, name="c19"):
     """common.replay under an address-space limit for the worker processes (a hanging drawing loop allocates)."""
     if not cases:
         return {}
@@ -214,15 +247,15 @@ def timed_out(r):
     return (not r["ok"]) and r.get("timeout")
 
 
-def replay_robust(cases, *, deadline="90s", name="c19"):
+def replay_robust(cases, *, deadline="120s", name="c19", batch=40):
     """Replay; a case that only ran out of WALL-CLOCK time (pool deadline, or the binary's wall timeout without
     having used its CPU budget) is run again alone with a long deadline: slowness of a loaded machine is no hang."""
-    results = replay(cases, deadline=deadline, name=name)
+    results = replay(cases, deadline=deadline, name=name, batch=batch)
     again = [c for c in cases if timed_out(results[c["id"]]) and not (results[c["id"]].get("obs") or {}).get("cpulimit")]
     if again:
         if len(again) > 40:
             raise HarnessError("%d cases ran out of wall-clock time: the machine is too loaded to judge" % len(again))
-        results.update(replay(again, deadline="300s", workers=2, name=name + "retry"))
+        results.update(replay(again, deadline="300s", workers=2, name=name + "retry", batch=1))
     return results
 
 
@@ -231,6 +264,12 @@ def run(chk):
     common.build_harness()
     common.build_evy()
     rnd = random.Random(common.seed())
+    timing = chk.extra.setdefault("timing_s", {})
+    t0 = [time.time()]
+
+    def lap(name):
+        timing[name] = round(time.time() - t0[0], 1)
+        t0[0] = time.time()
     os.environ.setdefault("GOMAXPROCS", "2")   # many small cases: one OS thread pair per worker process is plenty
 
     raws = tlc(chk, "quick" if tier == "quick" else "thorough", 3).cases
@@ -238,11 +277,14 @@ def run(chk):
     if tier != "quick":
         have = {c["src"] for c in cases}
         for n in (5, 4):
-            sim = tlc(chk, "sim", n, simulate=12000, label="FamSvg/sim%d" % n)
+            # -simulate evaluates the emitting invariant on every successor it generates, so each random walk
+            # yields its last state's ~80 siblings: 40 walks x 8 workers = 320 random prefixes per length
+            sim = tlc(chk, "sim", n, simulate=40, workers=8, label="FamSvg/sim%d" % n)
             new = [c for c in make_cases(sim.cases, "r%d" % n) if c["src"] not in have]
             have.update(c["src"] for c in new)
             cases += new
 
+    lap("tlc+cases")
     tmp = os.path.join(common.OUT, "scratch", "c19bin.%d" % os.getpid())
     try:
         # gridn with a unit that is not > 0 (only termination is demanded). The binary decides (CPU-time limit);
@@ -253,11 +295,11 @@ def run(chk):
         probe_bin = [bin_variant(c, k, tmp) for k, c in enumerate(probe[:2])]
         for b in probe_bin:
             b["cpuSecs"] = 2
-        bres = replay_robust(probe_bin, name="c19probebin")
+        bres = replay_robust(probe_bin, name="c19probebin", batch=1)
         account(chk, probe_bin, bres)
         bin_hangs = any((bres[b["id"]].get("obs") or {}).get("cpulimit") for b in probe_bin)
         if bin_hangs:
-            pres = replay(probe[:3], deadline="5s", workers=3, name="c19probe")
+            pres = replay(probe[:3], deadline="5s", workers=3, name="c19probe", batch=1)
             account(chk, probe[:3], pres)
             chk.notes.append("gridn with a unit <= 0 does not terminate (%d probes through the binary, %d in-process); the "
                              "other %d sequences of that class were not run" % (len(probe_bin), 3, len(risky) - len(probe[:3])))
@@ -266,6 +308,7 @@ def run(chk):
             normal += risky
             nrisky = 0
 
+        lap("hang-probe")
         nbin = 400 if tier == "quick" else 4000
         chosen = rnd.sample(normal, min(nbin, len(normal)))
         bins = [bin_variant(c, k, tmp) for k, c in enumerate(chosen)]
@@ -273,8 +316,10 @@ def run(chk):
     finally:
         shutil.rmtree(tmp, ignore_errors=True)
     account(chk, normal + bins, results)
+    lap("replay")
 
     direction_b(chk, rnd)
+    lap("direction-b")
 
     for c in (normal[:1] + [c for c in normal if c["nt"] and c["ncmd"] == 3][:2]
               + [c for c in normal if c["outcome"] != "ok"][:1]):
@@ -407,7 +452,7 @@ def replay_one(data):
         common.build_evy()
         case["evy"] = common.EVY
         case["tmp"] = os.path.join(common.OUT, "scratch", "c19bin.%d" % os.getpid())
-    res = replay([case], deadline="60s", workers=1)[case["id"]]
+    res = replay([case], deadline="60s", workers=1, batch=1)[case["id"]]
     shutil.rmtree(case.get("tmp", "/nonexistent"), ignore_errors=True)
     print(case["src"])
     print(json.dumps({k: v for k, v in res.items() if k != "obs"}, indent=1, ensure_ascii=False))
